@@ -49,6 +49,10 @@ pub enum OpK {
     Add { c: usize, name: String, src: String, #[serde(default)] must_read: bool },
     /// Program::from_source on the client's thread, then add_program(clone)
     AddShared { c: usize, name: String, src: String },
+    /// a text that does not compile: add_program_str under the name `zz_bad` (never used,
+    /// never inspected) or, `free`, Program::from_source without a context; the failure
+    /// must not matter to anything that follows
+    AddBad { c: usize, src: String, free: bool },
     NewB { b: usize },
     CloneB { from: usize, to: usize },
     Bind { b: usize, name: String, val: V },
@@ -126,6 +130,7 @@ pub fn case_skeleton(case: &J) -> String {
                     OpK::DropCtx { .. } => 'D',
                     OpK::Add { .. } => 'A',
                     OpK::AddShared { .. } => 'S',
+                    OpK::AddBad { .. } => 'B',
                     OpK::NewB { .. } => 'n',
                     OpK::CloneB { .. } => 'c',
                     OpK::Bind { .. } => 'b',
@@ -289,6 +294,12 @@ fn to_json(v: &V) -> serde_json::Value {
 pub fn json_safe(v: &V) -> bool {
     match v {
         V::Int(_) | V::Bool(_) | V::Str(_) | V::Null => true,
+        // a finite double with a fractional part stays a double (an integral one may come
+        // back as an int, which no statement settles)
+        V::F(b) => {
+            let f = f64::from_bits(*b);
+            f.is_finite() && f.fract() != 0.0
+        }
         V::List(l) => l.iter().all(json_safe),
         V::Map(m) => m.values().all(json_safe),
         _ => false,
@@ -412,6 +423,15 @@ fn client_main(keys: [u8; 16], ctxs: Ctxs, universe: Vec<String>, c09: bool, rx:
                     },
                     None => rep.skipped = true,
                 },
+                OpK::AddBad { c, src, free } => {
+                    let _ = std::panic::catch_unwind(std::panic::AssertUnwindSafe(|| {
+                        if free {
+                            let _ = Program::from_source(&src);
+                        } else if let Some(x) = cs.get_mut(&c) {
+                            let _ = x.add_program_str("zz_bad", &src);
+                        }
+                    }));
+                }
                 OpK::NewB { b } => {
                     binds.insert(b, BindContext::new());
                 }
@@ -875,6 +895,9 @@ pub fn run_case(prop: WorldProp, case: &WorldCase) -> RunResult {
                     ));
                     break 'ops;
                 }
+            }
+            OpK::AddBad { .. } => {
+                fire(&mut fired, "failed_compile");
             }
             OpK::NewB { b } => {
                 model.binds.insert(*b, (op.t, BTreeMap::new()));
